@@ -22,7 +22,7 @@ unsigned long nondet_u64() noexcept { return nx(); } unsigned vf_param(int i) no
 unsigned vf_enum(unsigned x, unsigned) noexcept { return x; }
 void __CPROVER_assert(bool c, const char* m) noexcept { if (!c) { ++fails; printf("NATIVE ASSERT FAILED: %%s\\n", m); } }
 void __CPROVER_assume(bool c) noexcept { if (!c) { printf("NATIVE ASSUME FALSE\\n"); exit(3); } }
-void vf_witness(int) noexcept {} void vf_visible() noexcept {} void vf_spin_wait() noexcept {} void vf_check_leaks() noexcept {}
+void vf_witness(int) noexcept {} void vf_visible() noexcept {} void vf_spin_wait() noexcept {} void vf_spin_wait2() noexcept {} void vf_check_leaks() noexcept {}
 void vf_observe(long) noexcept {} unsigned vf_self() noexcept { return 0; }
 void vf_wait_until_eq(const int*, int) noexcept {} void vf_thread_body(int) noexcept {} void vf_stop_here() noexcept {} void vf_join_all() noexcept {}
 unsigned long vf_clock() noexcept { return 0; } unsigned char vf_input(int) noexcept { return 0; }
